@@ -220,8 +220,19 @@ fn minimise_plan(plan: &threads::Plan, class: &str) -> (threads::Plan, usize) {
                 continue;
             }
             tries += 1;
-            let mut st = engine::Stats::default();
-            if threads::judge(&c, &mut st).violation.is_some_and(|v| v.class == class) {
+            // a candidate is kept only if it shows the violation three times in a row: a defect
+            // that makes outputs depend on per-instance hasher state or addresses is itself
+            // nondeterministic, and a plan cut down to a lucky single task would not replay
+            let head = class.split('(').next().unwrap_or(class);
+            let mut all = true;
+            for _ in 0..3 {
+                let mut st = engine::Stats::default();
+                if !threads::judge(&c, &mut st).violation.is_some_and(|v| v.class.starts_with(head)) {
+                    all = false;
+                    break;
+                }
+            }
+            if all {
                 best = c;
                 progressed = true;
                 break;
@@ -1190,18 +1201,31 @@ fn run_replay(path: &str) -> i32 {
                 eprintln!("bad plan");
                 return 2;
             };
-            let mut st = engine::Stats::default();
-            let v = threads::judge(&plan, &mut st);
-            if v.sim.diverged {
-                println!("note: the recorded schedule no longer fits the execution (code changed); decisions fell back to 'keep running'");
+            // on code where the property holds a plan is deterministic, so repeating it is sound; a
+            // defect that lets per-instance hasher state or addresses reach the output shows in some
+            // executions only: up to 8 executions, any dimension of the same violation class counts
+            let head = class.split('(').next().unwrap_or(&class).to_string();
+            let mut hit = None;
+            for rep in 0..8 {
+                let mut st = engine::Stats::default();
+                let v = threads::judge(&plan, &mut st);
+                if rep == 0 && v.sim.diverged {
+                    println!("note: the recorded schedule no longer fits the execution (code changed); decisions fell back to 'keep running'");
+                }
+                if let Some(x) = v.violation {
+                    if x.class.starts_with(&head) {
+                        hit = Some((rep, x));
+                        break;
+                    }
+                }
             }
-            match v.violation {
-                Some(x) if x.class == class => {
-                    println!("replayed: class={} detail={}", x.class, x.detail);
+            match hit {
+                Some((rep, x)) => {
+                    println!("replayed (execution {} of up to 8): class={} detail={}", rep + 1, x.class, x.detail);
                     println!("VIOLATION property={} replay={}", prop, path);
                     1
                 }
-                _ => {
+                None => {
                     println!("not reproduced: property={} class={}", prop, class);
                     0
                 }
